@@ -238,10 +238,10 @@ class _Exec:
                 before = {k: copy.deepcopy(v.d) for k, v in self.env.items() if isinstance(v, _Arr)}
                 scal = {k: v for k, v in self.env.items() if not isinstance(v, _Arr)}
                 self.run(s.body, loc)
+                for k in [k for k, v in self.env.items() if isinstance(v, _Arr) and k not in before]:
+                    del self.env[k]      # arrays allocated inside the conditional are local to it
                 for k, v in self.env.items():
                     if isinstance(v, _Arr):
-                        if k not in before:
-                            self.fail(s, "array allocated under a conditional")
                         for idx in v.d:
                             if v.d[idx] != before[k][idx]:
                                 if before[k][idx] is None:
